@@ -1,10 +1,27 @@
-(* AES-CTR: one call of the generated Python_AES_CTR.encrypt from a 16-byte counter block = SP 800-38A CTR. *)
+(* AES-CTR: the generated Python_AES_CTR.encrypt (Gen/C09_AesModes.v), for objects whose counter fills the whole
+   16-byte block (ctr_init with a 16-byte IV; the objects inside AES-GCM / AES-CCM):
+   - one call = SP 800-38A 6.5 CTR (ctr_encrypt_ok);
+   - the object is a STREAM: the unused key stream is kept, so enc (a ++ b) = enc a ++ enc' b for ANY split
+     (ctr_stream_split_code).  Before /repo commit de57de0 the second statement was false (ctr_stream_split_refuted). *)
 From Coq Require Import ZArith List Bool Lia String.
 From TV Require Import Base.Prelude Base.C09_Lib Base.C09_Oracle Gen.C09_AesModes
   Spec.C09_Poly1305 Spec.C09_Modes Proofs.C09_Lists Proofs.C09_Poly1305 Proofs.C09_KDF Proofs.C09_GCM.
 Import ListNotations.
 Open Scope list_scope.
 Open Scope Z_scope.
+
+Lemma iter_add {A} (f : A -> A) n m x : Nat.iter (n + m) f x = Nat.iter m f (Nat.iter n f x).
+Proof.
+  revert x. induction n as [|n IH]; intros x; [reflexivity|].
+  change (Nat.iter (S n + m) f x) with (f (Nat.iter (n + m) f x)). rewrite IH.
+  change (Nat.iter (S n) f x) with (f (Nat.iter n f x)). symmetry. apply iter_shift.
+Qed.
+
+Lemma combine_firstn_len {A B} (a : list A) (m : list B) : combine a (firstn (List.length a) m) = combine a m.
+Proof.
+  revert m. induction a as [|x a IH]; intros m; [reflexivity|].
+  destruct m as [|y m]; [reflexivity|]. cbn [List.length firstn combine]. rewrite IH. reflexivity.
+Qed.
 
 Section CTRspec.
   Variable O : BlockOracle.
@@ -22,11 +39,22 @@ Section CTRspec.
       rewrite <- app_assoc. do 3 f_equal. apply iter_shift.
   Qed.
 
+  Lemma ctr_blocks_add t i j : ctr_blocks E t (i + j) = ctr_blocks E t i ++ ctr_blocks E (Nat.iter i ctr_inc t) j.
+  Proof.
+    induction j as [|j IH].
+    - rewrite Nat.add_0_r. cbn [ctr_blocks]. rewrite app_nil_r. reflexivity.
+    - replace (i + S j)%nat with (S (i + j)) by lia. rewrite !ctr_blocks_snoc, IH, <- app_assoc.
+      do 3 f_equal. apply iter_add.
+  Qed.
+
   Lemma ctr_blocks_len t i : zlen (ctr_blocks E t i) = 16 * Z.of_nat i.
   Proof.
     revert t. induction i as [|i IH]; intros t; [reflexivity|].
     cbn [ctr_blocks]. rewrite zlen_app, IH. unfold zlen. rewrite Elen. lia.
   Qed.
+
+  Lemma ctr_blocks_bytes t i : all_bytes (ctr_blocks E t i) = true.
+  Proof. revert t. induction i as [|i IH]; intros t; [reflexivity|]. cbn [ctr_blocks]. rewrite all_bytes_app, IH. unfold E. rewrite Ebytes. reflexivity. Qed.
 
   Lemma ctr_inc_len t : List.length (ctr_inc t) = List.length t.
   Proof. unfold ctr_inc, be_bytes. rewrite rev_length, le_bytes_length. reflexivity. Qed.
@@ -34,91 +62,155 @@ Section CTRspec.
   Lemma iter_inc_len i t : List.length (Nat.iter i ctr_inc t) = List.length t.
   Proof. induction i as [|i IH]; [reflexivity|]. simpl. rewrite ctr_inc_len. exact IH. Qed.
 
-  (* one counter update, for an object whose IV fills the whole block (as set up by AES-GCM / AES-CCM) *)
-  Lemma ctr_counter_update_ok iv c : List.length c = 16%nat ->
-    ctr_counter_update O (mkAESCTR key iv 0 c) = Ok (mkAESCTR key iv 0 (ctr_inc c)).
+  Lemma ctr_counter_update_ok iv c ks : List.length c = 16%nat ->
+    ctr_counter_update O (mkAESCTR key iv 0 c ks) = Ok (mkAESCTR key iv 0 (ctr_inc c) ks).
   Proof.
-    intros Lc. unfold ctr_counter_update. cbn [ctr_rijndael ctr_IV ctr__counter_bytes ctr__counter]. cbv zeta.
+    intros Lc. unfold ctr_counter_update. cbn [ctr_rijndael ctr_IV ctr__counter_bytes ctr__counter ctr__keystream]. cbv zeta.
     change (0 >? 0) with false. cbn [andb]. f_equal. f_equal.
     unfold numberToByteArray, bytesToNumber, ctr_inc, be_bytes. rewrite Lc. change (Z.to_nat 16) with 16%nat.
     f_equal. replace (zlen c) with (Z.of_nat 16) by (unfold zlen; lia). rewrite le_bytes_mod. reflexivity.
   Qed.
 
-  Variable iv t0 : list Z.
-  Hypothesis Lt0 : List.length t0 = 16%nat.
-  Variable n : Z.
-  Hypothesis Hn : 0 <= n.
+  Section Loop.
+    Variable iv t0 ks : list Z.
+    Hypothesis Lt0 : List.length t0 = 16%nat.
+    Variable n : Z.
 
-  Let St (i : nat) : ctr_state := (ctr_blocks E t0 i, key, iv, 0, Nat.iter i ctr_inc t0).
-  Let cond := (fun '(mask, self_rijndael, self_IV, self__counter_bytes, self__counter) => zlen mask <? n) : ctr_state -> bool.
-  Let body := (fun '(mask, self_rijndael, self_IV, self__counter_bytes, self__counter) =>
+    Let St (i : nat) : ctr_state := (ks ++ ctr_blocks E t0 i, key, iv, 0, Nat.iter i ctr_inc t0, ks).
+    Let cond := (fun '(mask, self_rijndael, self_IV, self__counter_bytes, self__counter, self__keystream) => zlen mask <? n) : ctr_state -> bool.
+    Let body := (fun '(mask, self_rijndael, self_IV, self__counter_bytes, self__counter, self__keystream) =>
          let mask := mask ++ bo_enc O self_rijndael self__counter in
-         self__ <- ctr_counter_update O (mkAESCTR self_rijndael self_IV self__counter_bytes self__counter) ;;
+         self__ <- ctr_counter_update O (mkAESCTR self_rijndael self_IV self__counter_bytes self__counter self__keystream) ;;
          let self_rijndael := ctr_rijndael self__ in
          let self_IV := ctr_IV self__ in
          let self__counter_bytes := ctr__counter_bytes self__ in
          let self__counter := ctr__counter self__ in
-         @Ok ctr_state (mask, self_rijndael, self_IV, self__counter_bytes, self__counter)).
+         let self__keystream := ctr__keystream self__ in
+         @Ok ctr_state (mask, self_rijndael, self_IV, self__counter_bytes, self__counter, self__keystream)).
 
-  Lemma ctr_body_step i : body (St i) = Ok (St (S i)).
+    Lemma ctr_body_step i : body (St i) = Ok (St (S i)).
+    Proof.
+      unfold St at 1. unfold body. cbv zeta.
+      rewrite ctr_counter_update_ok by (rewrite iter_inc_len; exact Lt0). rewrite bind_ok.
+      cbn [ctr_rijndael ctr_IV ctr__counter_bytes ctr__counter ctr__keystream].
+      unfold St. rewrite ctr_blocks_snoc, app_assoc. reflexivity.
+    Qed.
+
+    Lemma ctr_cond_St i : cond (St i) = (zlen ks + 16 * Z.of_nat i <? n).
+    Proof. unfold St, cond. rewrite zlen_app, ctr_blocks_len. reflexivity. Qed.
+
+    Lemma while_fuel_S' {S0} fuel (c : S0 -> bool) (b : S0 -> res S0) s :
+      while_fuel (S fuel) c b s = if c s then s' <- b s ;; while_fuel fuel c b s' else Ok s.
+    Proof. reflexivity. Qed.
+
+    Lemma ctr_loop_run : forall k i fuel,
+      (k = 0%nat \/ zlen ks + 16 * (Z.of_nat (i + k) - 1) < n) -> n <= zlen ks + 16 * Z.of_nat (i + k) -> (k < fuel)%nat ->
+      while_fuel fuel cond body (St i) = Ok (St (i + k)).
+    Proof.
+      induction k as [|k IH]; intros i fuel H1 H2 Hf.
+      - rewrite Nat.add_0_r in *. destruct fuel as [|fuel]; [lia|]. rewrite while_fuel_S', ctr_cond_St.
+        destruct (zlen ks + 16 * Z.of_nat i <? n) eqn:Ec; [lia|]. reflexivity.
+      - destruct fuel as [|fuel]; [lia|]. rewrite while_fuel_S', ctr_cond_St.
+        destruct H1 as [H1|H1]; [discriminate|].
+        destruct (zlen ks + 16 * Z.of_nat i <? n) eqn:Ec; [|lia].
+        rewrite ctr_body_step, bind_ok. replace (i + S k)%nat with (S i + k)%nat by lia. apply IH; [| |lia].
+        + right. replace (S i + k)%nat with (i + S k)%nat by lia. exact H1.
+        + replace (S i + k)%nat with (i + S k)%nat by lia. exact H2.
+    Qed.
+
+    (* q = the number of fresh blocks: the least q with |ks| + 16 q >= n *)
+    Lemma ctr_loop_ok (q : nat) : 0 <= n -> (q = 0%nat \/ zlen ks + 16 * (Z.of_nat q - 1) < n) -> n <= zlen ks + 16 * Z.of_nat q ->
+      ctr_loop O (mkAESCTR key iv 0 t0 ks) n = Ok (St q).
+    Proof.
+      intros Hn H1 H2. unfold ctr_loop. cbn [ctr_rijndael ctr_IV ctr__counter_bytes ctr__counter ctr__keystream].
+      fold cond. fold body.
+      assert (E0 : (ks, key, iv, 0, t0, ks) = St 0) by (unfold St; cbn [ctr_blocks Nat.iter]; rewrite app_nil_r; reflexivity).
+      rewrite E0. pose proof (zlen_nonneg ks) as Hk.
+      apply (ctr_loop_run q 0 (Z.to_nat (n + 1))); cbn [plus]; try assumption. destruct H1 as [->|H1]; lia.
+    Qed.
+  End Loop.
+
+  Definition ctr_fresh (ks : list Z) (n : Z) : nat :=
+    if n <=? zlen ks then 0%nat else Z.to_nat ((n - zlen ks + 15) / 16).
+
+  Lemma ctr_fresh_ok ks n : 0 <= n ->
+    (ctr_fresh ks n = 0%nat \/ zlen ks + 16 * (Z.of_nat (ctr_fresh ks n) - 1) < n) /\ n <= zlen ks + 16 * Z.of_nat (ctr_fresh ks n).
   Proof.
-    unfold St at 1. unfold body. cbv zeta.
-    rewrite ctr_counter_update_ok by (rewrite iter_inc_len; exact Lt0). rewrite bind_ok.
-    cbn [ctr_rijndael ctr_IV ctr__counter_bytes ctr__counter].
-    unfold St. rewrite ctr_blocks_snoc. reflexivity.
+    intros Hn. unfold ctr_fresh. pose proof (zlen_nonneg ks) as Hk.
+    destruct (n <=? zlen ks) eqn:Ec; [split; [left; reflexivity|lia]|].
+    pose proof (Z.div_mod (n - zlen ks + 15) 16 ltac:(lia)). pose proof (Z.mod_pos_bound (n - zlen ks + 15) 16 ltac:(lia)).
+    rewrite Z2Nat.id by (apply Z.div_pos; lia). split; [right|]; lia.
   Qed.
 
-  Lemma ctr_cond_St i : cond (St i) = (16 * Z.of_nat i <? n).
-  Proof. unfold St, cond. rewrite ctr_blocks_len. reflexivity. Qed.
-
-  Lemma while_fuel_S' {S0} fuel (c : S0 -> bool) (b : S0 -> res S0) s :
-    while_fuel (S fuel) c b s = if c s then s' <- b s ;; while_fuel fuel c b s' else Ok s.
-  Proof. reflexivity. Qed.
-
-  Lemma ctr_loop_run : forall k i fuel, 16 * (Z.of_nat (i + k) - 1) < n -> n <= 16 * Z.of_nat (i + k) -> (k < fuel)%nat ->
-    while_fuel fuel cond body (St i) = Ok (St (i + k)).
+  (* what one call computes: XOR with  left-over ++ fresh blocks,  and what it leaves in the object *)
+  Lemma ctr_encrypt_run iv t0 ks m (q : nat) : List.length t0 = 16%nat -> all_bytes ks = true -> all_bytes m = true ->
+    (q = 0%nat \/ zlen ks + 16 * (Z.of_nat q - 1) < zlen m) -> zlen m <= zlen ks + 16 * Z.of_nat q ->
+    ctr_encrypt O (mkAESCTR key iv 0 t0 ks) m =
+    Ok (mkAESCTR key iv 0 (Nat.iter q ctr_inc t0) (skipn (List.length m) (ks ++ ctr_blocks E t0 q)),
+        xorb m (ks ++ ctr_blocks E t0 q)).
   Proof.
-    induction k as [|k IH]; intros i fuel H1 H2 Hf.
-    - rewrite Nat.add_0_r in *. destruct fuel as [|fuel]; [lia|]. rewrite while_fuel_S', ctr_cond_St.
-      destruct (16 * Z.of_nat i <? n) eqn:Ec; [lia|]. reflexivity.
-    - destruct fuel as [|fuel]; [lia|]. rewrite while_fuel_S', ctr_cond_St.
-      destruct (16 * Z.of_nat i <? n) eqn:Ec; [|lia].
-      rewrite ctr_body_step, bind_ok. replace (i + S k)%nat with (S i + k)%nat by lia. apply IH; [| |lia].
-      + replace (S i + k)%nat with (i + S k)%nat by lia. exact H1.
-      + replace (S i + k)%nat with (i + S k)%nat by lia. exact H2.
+    intros Lt Bk Bm H1 H2. rewrite ctr_encrypt_shape.
+    rewrite (ctr_loop_ok iv t0 ks Lt (zlen m) q (zlen_nonneg m) H1 H2). rewrite bind_ok.
+    set (M := ks ++ ctr_blocks E t0 q).
+    assert (BM : all_bytes M = true) by (unfold M; rewrite all_bytes_app, Bk, ctr_blocks_bytes; reflexivity).
+    assert (Bx : all_bytes (map (fun '(i, j) => Z.lxor i j) (combine m M)) = true).
+    { unfold all_bytes in *. rewrite forallb_forall in *. intros z Hz. apply in_map_iff in Hz. destruct Hz as [[x y] [<- Hin]].
+      apply lxor_is_byte; [apply Bm; eapply in_combine_l; eauto|apply BM; eapply in_combine_r; eauto]. }
+    unfold mk_bytes. rewrite Bx, bind_ok. rewrite py_slice_from by apply zlen_nonneg.
+    unfold zlen at 1. rewrite Nat2Z.id. f_equal. f_equal. unfold xorb. apply map_ext. intros [a b]. reflexivity.
   Qed.
 
-  Lemma ctr_loop_ok :
-    ctr_loop O (mkAESCTR key iv 0 t0) n =
-    Ok (St (Z.to_nat ((n + 15) / 16))).
+  (* one call on an object with no left-over key stream = SP 800-38A CTR *)
+  Lemma ctr_encrypt_ok iv t0 m : List.length t0 = 16%nat -> all_bytes m = true ->
+    ctr_encrypt O (mkAESCTR key iv 0 t0 []) m =
+    Ok (mkAESCTR key iv 0 (Nat.iter (Z.to_nat ((zlen m + 15) / 16)) ctr_inc t0)
+                 (skipn (List.length m) (ctr_blocks E t0 (Z.to_nat ((zlen m + 15) / 16)))),
+        ctr_crypt_spec E 16 t0 m).
   Proof.
-    unfold ctr_loop. cbn [ctr_rijndael ctr_IV ctr__counter_bytes ctr__counter].
-    fold cond. fold body. change (@nil Z, key, iv, 0, t0) with (St 0).
-    set (q := Z.to_nat ((n + 15) / 16)).
-    assert (Hq : 16 * (Z.of_nat q - 1) < n /\ n <= 16 * Z.of_nat q).
-    { unfold q. rewrite Z2Nat.id by (apply Z.div_pos; lia).
-      pose proof (Z.div_mod (n + 15) 16 ltac:(lia)). pose proof (Z.mod_pos_bound (n + 15) 16 ltac:(lia)). lia. }
-    apply (ctr_loop_run q 0 (Z.to_nat (n + 1))); cbn [plus]; lia.
+    intros Lt Bm. pose proof (zlen_nonneg m) as Hm.
+    pose proof (Z.div_mod (zlen m + 15) 16 ltac:(lia)). pose proof (Z.mod_pos_bound (zlen m + 15) 16 ltac:(lia)).
+    rewrite (ctr_encrypt_run iv t0 [] m (Z.to_nat ((zlen m + 15) / 16)) Lt eq_refl Bm).
+    - cbn [app]. unfold ctr_crypt_spec. change (Z.of_nat 16) with 16. replace (zlen m + 16 - 1) with (zlen m + 15) by lia. reflexivity.
+    - change (zlen (@nil Z)) with 0. rewrite Z2Nat.id by (apply Z.div_pos; lia). right. lia.
+    - change (zlen (@nil Z)) with 0. rewrite Z2Nat.id by (apply Z.div_pos; lia). lia.
+  Qed.
+
+  (* the object is a stream: two calls = one call on the concatenation, for ANY split offset *)
+  Lemma ctr_stream_split_code iv t0 ks a b : List.length t0 = 16%nat -> all_bytes ks = true ->
+    all_bytes a = true -> all_bytes b = true ->
+    ('(st1, c1) <- ctr_encrypt O (mkAESCTR key iv 0 t0 ks) a ;; '(st2, c2) <- ctr_encrypt O st1 b ;; Ok (st2, c1 ++ c2))
+    = ctr_encrypt O (mkAESCTR key iv 0 t0 ks) (a ++ b).
+  Proof.
+    intros Lt Bk Ba Bb.
+    pose proof (zlen_nonneg a) as Ha. pose proof (zlen_nonneg b) as Hb. pose proof (zlen_nonneg ks) as Hk.
+    set (q1 := ctr_fresh ks (zlen a)). destruct (ctr_fresh_ok ks (zlen a) Ha) as [A1 A2]. fold q1 in A1, A2.
+    rewrite (ctr_encrypt_run iv t0 ks a q1 Lt Bk Ba A1 A2). rewrite bind_ok.
+    set (M1 := ks ++ ctr_blocks E t0 q1).
+    assert (LM1 : zlen M1 = zlen ks + 16 * Z.of_nat q1) by (unfold M1; rewrite zlen_app, ctr_blocks_len; reflexivity).
+    assert (BM1 : all_bytes M1 = true) by (unfold M1; rewrite all_bytes_app, Bk, ctr_blocks_bytes; reflexivity).
+    set (ks1 := skipn (List.length a) M1).
+    assert (Lk1 : zlen ks1 = zlen ks + 16 * Z.of_nat q1 - zlen a) by (unfold ks1, zlen in *; rewrite skipn_length; lia).
+    assert (Bk1 : all_bytes ks1 = true) by (apply all_bytes_skipn; exact BM1).
+    set (t1 := Nat.iter q1 ctr_inc t0). assert (Lt1 : List.length t1 = 16%nat) by (unfold t1; rewrite iter_inc_len; exact Lt).
+    set (q2 := ctr_fresh ks1 (zlen b)). destruct (ctr_fresh_ok ks1 (zlen b) Hb) as [B1 B2]. fold q2 in B1, B2.
+    rewrite (ctr_encrypt_run iv t1 ks1 b q2 Lt1 Bk1 Bb B1 B2). rewrite bind_ok.
+    assert (Bab : all_bytes (a ++ b) = true) by (rewrite all_bytes_app, Ba, Bb; reflexivity).
+    rewrite (ctr_encrypt_run iv t0 ks (a ++ b) (q1 + q2) Lt Bk Bab).
+    2:{ rewrite zlen_app. destruct B1 as [B1|B1]; [destruct A1 as [A1|A1]; [left; lia|right; rewrite B1; lia]|right; lia]. }
+    2:{ rewrite zlen_app. lia. }
+    rewrite ctr_blocks_add. fold t1. rewrite app_assoc. fold M1.
+    assert (EM : M1 ++ ctr_blocks E t1 q2 = firstn (List.length a) M1 ++ (ks1 ++ ctr_blocks E t1 q2)).
+    { unfold ks1. rewrite app_assoc, firstn_skipn. reflexivity. }
+    f_equal. f_equal.
+    - (* the object afterwards *)
+      assert (Et : Nat.iter (q1 + q2) ctr_inc t0 = Nat.iter q2 ctr_inc t1) by (unfold t1; apply iter_add).
+      rewrite Et. f_equal.
+      rewrite EM, app_length. rewrite <- skipn_add. f_equal.
+      rewrite skipn_app. rewrite (skipn_all2 (firstn (List.length a) M1)) by (rewrite firstn_length; lia).
+      rewrite firstn_length. replace (List.length a - Nat.min (List.length a) (List.length M1))%nat with 0%nat by (unfold zlen in *; lia).
+      reflexivity.
+    - (* the output *)
+      rewrite EM. unfold xorb. rewrite combine_app by (rewrite firstn_length; unfold zlen in *; lia).
+      rewrite map_app, combine_firstn_len. reflexivity.
   Qed.
 End CTRspec.
-
-(* one call from a freshly set 16-byte counter block = SP 800-38A CTR *)
-Lemma ctr_encrypt_ok O key iv t0 m :
-  (forall b, List.length (bo_enc O key b) = 16%nat) -> (forall k b, all_bytes (bo_enc O k b) = true) ->
-  List.length t0 = 16%nat -> all_bytes m = true ->
-  ctr_encrypt O (mkAESCTR key iv 0 t0) m =
-  Ok (mkAESCTR key iv 0 (Nat.iter (Z.to_nat ((zlen m + 15) / 16)) ctr_inc t0), ctr_crypt_spec (bo_enc O key) 16 t0 m).
-Proof.
-  intros HL HB Lt Bm. rewrite ctr_encrypt_shape.
-  rewrite (ctr_loop_ok O key HL iv t0 Lt (zlen m) (zlen_nonneg m)). rewrite bind_ok.
-  set (q := Z.to_nat ((zlen m + 15) / 16)).
-  assert (Bk : all_bytes (ctr_blocks (bo_enc O key) t0 q) = true).
-  { generalize t0. induction q as [|q' IH]; intros t; [reflexivity|]. cbn [ctr_blocks]. rewrite all_bytes_app, HB, IH. reflexivity. }
-  unfold mk_bytes.
-  assert (Bx : all_bytes (map (fun '(i, j) => Z.lxor i j) (combine m (ctr_blocks (bo_enc O key) t0 q))) = true).
-  { unfold all_bytes in *. rewrite forallb_forall in *. intros z Hz. apply in_map_iff in Hz. destruct Hz as [[x y] [<- Hin]].
-    apply lxor_is_byte; [apply Bm; eapply in_combine_l; eauto|apply Bk; eapply in_combine_r; eauto]. }
-  rewrite Bx, bind_ok. f_equal. f_equal. unfold ctr_crypt_spec, xorb.
-  change (Z.of_nat 16) with 16. replace (zlen m + 16 - 1) with (zlen m + 15) by lia. fold q.
-  apply map_ext. intros [a b]. reflexivity.
-Qed.
